@@ -72,6 +72,37 @@ theorem program_reads_used_fields (po po' : Pdb.Opts) (o : Pipe.Opts) (l1 l2 : L
   simp only [he, afterParse, hc]
 end
 
+/-! ### the average conformation (C08) -/
+section
+variable {α : Type} [Add α] [Div α] [NatCast α]
+
+theorem foldl_iaddL_scalars (found : List (Dets.GRec α)) (a : Dets.Acc α) :
+    (found.foldl iaddL a).pka = found.foldl (fun x g => x + g.pka) a.pka ∧
+    (found.foldl iaddL a).evol = found.foldl (fun x g => x + g.evol) a.evol ∧
+    (found.foldl iaddL a).eloc = found.foldl (fun x g => x + g.eloc) a.eloc := by
+  induction found generalizing a with
+  | nil => exact ⟨rfl, rfl, rfl⟩
+  | cons g rest ih =>
+    simp only [List.foldl]
+    obtain ⟨h1, h2, h3⟩ := ih (iaddL a g)
+    exact ⟨h1, h2, h3⟩
+
+/-- **C08, on the program model**: the pKa, and both desolvation terms, which the average conformation reports for a group are the
+    sum over the conformations in which `find_group` found it, taken in conformation order from zero, divided by their number -
+    the arithmetic mean over the conformations that contain the group, whatever the scalar. -/
+theorem averageL_is_mean (z : α) (found : List (Dets.GRec α)) :
+    (averageL z found).pka = Dets.avgScalar z (found.map (·.pka)) ∧
+    (averageL z found).evol = Dets.avgScalar z (found.map (·.evol)) ∧
+    (averageL z found).eloc = Dets.avgScalar z (found.map (·.eloc)) := by
+  obtain ⟨h1, h2, h3⟩ := foldl_iaddL_scalars found (⟨z, z, z, [], [], []⟩ : Dets.Acc α)
+  simp [averageL, Dets.divAcc, Dets.avgScalar, List.foldl_map, List.length_map, h1, h2, h3]
+
+/-- a group found in one conformation only is reported with that conformation's numbers divided by one -/
+theorem averageL_single (z : α) (g : Dets.GRec α) :
+    (averageL z [g]).pka = (z + g.pka) / ((1 : Nat) : α) := by
+  simp [averageL, Dets.divAcc, iaddL]
+end
+
 /-! ### non-vacuity: the C13 demo file satisfies the hypotheses, and it parses -/
 example : ∀ l ∈ Pdb.demo, isAtomLine l = true → 21 < l.length := by decide
 
